@@ -435,17 +435,22 @@ fn gen_delegation_method<'s>(
         (None, Some(SpanOpt(Delegate::ByRef(RefDelegate::AsRef), _))) => DelegatingMethod {
             trait_fn,
             sig: fn_sig.clone(),
+            // Fully qualified: a supertrait may have a method of the same name
             call: quote! {
-                <#impl_t as ::#core::convert::AsRef<dyn #trait_with_arguments>>::as_ref(#inner)
-                    .#fn_ident(#(#arguments),*)
+                <dyn #trait_with_arguments as #trait_with_arguments>::#fn_ident #turbofish(
+                    <#impl_t as ::#core::convert::AsRef<dyn #trait_with_arguments>>::as_ref(#inner),
+                    #(#arguments),*
+                )
             },
         },
         (None, Some(SpanOpt(Delegate::ByRef(RefDelegate::Borrow), _))) => DelegatingMethod {
             trait_fn,
             sig: fn_sig.clone(),
             call: quote! {
-                <#impl_t as ::#core::borrow::Borrow<dyn #trait_with_arguments>>::borrow(#inner)
-                    .#fn_ident(#(#arguments),*)
+                <dyn #trait_with_arguments as #trait_with_arguments>::#fn_ident #turbofish(
+                    <#impl_t as ::#core::borrow::Borrow<dyn #trait_with_arguments>>::borrow(#inner),
+                    #(#arguments),*
+                )
             },
         },
         _ => {
@@ -460,14 +465,15 @@ fn gen_delegation_method<'s>(
             DelegatingMethod {
                 trait_fn,
                 sig: fn_sig.clone(),
+                // Fully qualified: a supertrait may have a method of the same name
                 call: if takes_self_by_value {
                     // a `self` method consumes the inner value as well
                     quote! {
-                        #self_token.into_inner().#fn_ident #turbofish(#(#arguments),*)
+                        <#impl_t as #trait_with_arguments>::#fn_ident #turbofish(#self_token.into_inner(), #(#arguments),*)
                     }
                 } else {
                     quote! {
-                        #inner.#fn_ident #turbofish(#(#arguments),*)
+                        <#impl_t as #trait_with_arguments>::#fn_ident #turbofish(#inner, #(#arguments),*)
                     }
                 },
             }
